@@ -5404,10 +5404,11 @@ impl BytecodeVM {
                 let guard = interp.heap.create_guard();
                 let result = interp.create_object(&guard);
 
-                if let JsValue::Object(src_obj) = src_val {
+                {
                     // Copy all enumerable own properties (array elements included) except
                     // excluded ones
-                    let entries = src_obj.borrow().own_enumerable_entries();
+                    let src_val = src_val.clone();
+                    let entries = interp.read_own_enumerable_entries(&src_val, &guard)?;
                     for (key, value) in entries {
                         // Check if this key should be excluded
                         let should_exclude = match &key {
@@ -5436,9 +5437,12 @@ impl BytecodeVM {
                 let dst_val = self.get_reg(dst);
                 let src_val = self.get_reg(src);
 
-                if let (JsValue::Object(dst_obj), JsValue::Object(src_obj)) = (&dst_val, &src_val) {
-                    // Collect properties first to avoid borrow issues
-                    let props_to_copy = src_obj.borrow().own_enumerable_entries();
+                if let JsValue::Object(dst_obj) = &dst_val {
+                    // Collect properties first (getters run script code)
+                    let dst_obj = dst_obj.cheap_clone();
+                    let src_val = src_val.clone();
+                    let guard = interp.heap.create_guard();
+                    let props_to_copy = interp.read_own_enumerable_entries(&src_val, &guard)?;
 
                     // Copy properties to destination
                     let mut dst_borrowed = dst_obj.borrow_mut();
